@@ -75,11 +75,11 @@ type Block struct {
 type Type interface{}
 
 type (
-	TBase  struct{ Name string } // uint64T uint32T byteT boolT stringT unitT ptrT anyT funcT mapT extT
-	TSlice struct{ Elem Type }
-	TProd  struct{ A, B Type }
+	TBase   struct{ Name string } // uint64T uint32T byteT boolT stringT unitT ptrT anyT funcT mapT extT
+	TSlice  struct{ Elem Type }
+	TProd   struct{ A, B Type }
 	TStruct struct{ D *Desc }
-	TArray struct{ Elem Type }
+	TArray  struct{ Elem Type }
 )
 
 // Desc is a struct descriptor.
